@@ -8,7 +8,7 @@ package config
 //	    policies found were declared for that very pattern (and, per method, only there), and the extracted path
 //	    parameters are the request's segments at the parameter positions.
 //
-// Exhaustive over: every set of 1..3 declarations out of 12 patterns (10 distinct, two repeated for a second method) under one host (literals, one-segment parameters,
+// Exhaustive over: every set of 1..3 declarations out of 13 patterns (10 distinct, two repeated for a second method, one written with a trailing slash) under one host (literals, one-segment parameters,
 // trailing wildcards, overlapping), with methods GET/POST assigned by position, EVERY order of the set, 9 request URLs.
 // The REAL BuildEndpointPolicyTree and Lookup run; the matcher used as oracle for "matches" is independent (segment by
 // segment). Labelled bounded: never counted as proved.
@@ -63,7 +63,7 @@ func c13Perms(n int) [][]int {
 
 func TestBoundedC13DeclarationOrderAndOwnPattern(t *testing.T) {
 	// (two patterns appear twice: the same pattern declared for two methods)
-	patterns := []string{"a.com", "a.com/*", "a.com/x", "a.com/{p}", "a.com/x/*", "a.com/x/y", "a.com/{p}/y", "a.com/x/{q}", "a.com/{p}/*", "a.com/x/y/*", "a.com/*", "a.com/x"}
+	patterns := []string{"a.com", "a.com/*", "a.com/x", "a.com/{p}", "a.com/x/*", "a.com/x/y", "a.com/{p}/y", "a.com/x/{q}", "a.com/{p}/*", "a.com/x/y/*", "a.com/*", "a.com/x", "a.com/x/"}
 	urls := []string{"a.com", "a.com/x", "a.com/y", "a.com/x/y", "a.com/y/y", "a.com/x/z", "a.com/y/z", "a.com/x/y/z", "a.com/y/z/w"}
 	methods := []string{"GET", "POST", "GET"}
 	checked := 0
@@ -81,7 +81,7 @@ func TestBoundedC13DeclarationOrderAndOwnPattern(t *testing.T) {
 		clash := false
 		for a := range set {
 			for b := a + 1; b < len(set); b++ {
-				if patterns[set[a]] == patterns[set[b]] && methods[a] == methods[b] {
+				if strings.Trim(patterns[set[a]], "/") == strings.Trim(patterns[set[b]], "/") && methods[a] == methods[b] {
 					clash = true // the same method declared twice for one pattern: which one wins is not part of the property
 				}
 			}
@@ -122,7 +122,7 @@ func TestBoundedC13DeclarationOrderAndOwnPattern(t *testing.T) {
 						if !declared {
 							t.Fatalf("REPLAY %v: lookup of %s returns a policy %s %s that was not declared", decl, u, m, pol.URL)
 						}
-						ok, params := c13Matches(pol.URL, u)
+						ok, params := c13Matches(strings.Trim(pol.URL, "/"), u)
 						if !ok {
 							t.Fatalf("REPLAY %v: lookup of %s returns the policy declared for %s, which does not match it", decl, u, pol.URL)
 						}
